@@ -60,6 +60,8 @@ c.ens("none-kept-text-cut-primitives-unchanged", _cav_post)
 # ---------------------------------------------------------------- BoundedAttributes.__setitem__
 c = contract(AT, "BoundedAttributes.__setitem__", ["C18"])
 c.param("self", OBJ("BoundedAttributes")).param("key", ANY).param("value", ANY)
+c.req("value-is-primitive", lambda S_: Not(Val.is_VRef(S_.a.value)))      # see _clean_attribute
+c.req("key-is-primitive", lambda S_: Not(Val.is_VRef(S_.a.key)))
 c.result = NONE
 c.host_ops_exc_base = "Exception"
 c.logged = "BoundedAttributes.__setitem__"
@@ -121,6 +123,10 @@ c.exit_check(_set_post)
 # _clean_attribute as seen by __setitem__ (its own table is proved separately)
 c = contract(AT, "_clean_attribute", ["C18"])
 c.param("key", ANY).param("value", ANY).param("max_len", OPT(INT))
+# domain of this contract: primitive values and None (sequence cleaning - homogeneous sequences frozen to tuples -
+# is not covered: its element-type reasoning is outside the engine's subset)
+c.req("value-is-primitive", lambda S_: Not(Val.is_VRef(S_.a.value)))
+c.req("key-is-primitive", lambda S_: Not(Val.is_VRef(S_.a.key)))
 c.result = VAL
 c.host_ops_exc_base = "Exception"
 c.logged = "_clean_attribute"
@@ -147,13 +153,18 @@ c.ens("only-that-key-removed", lambda S_: And(
     S_.new.dval_arr(S_.old.f(S_.a.self, "_dict")) == S_.old.dval_arr(S_.old.f(S_.a.self, "_dict"))))
 
 
+def _prim_dict(S_, d):
+    """domain restriction (see _clean_attribute): keys and values are primitives"""
+    k = z3.Const("k!prim", Val)
+    return z3.ForAll([k], Implies(S_.old.dhas(d, k), And(Not(Val.is_VRef(k)), Not(Val.is_VRef(S_.old.dget(d, k))))))
+
+
 # ---------------------------------------------------------------- BoundedAttributes.__init__ / merge_in / copy / __len__
 c = contract(AT, "BoundedAttributes.__init__", ["C18"])
-c.param("self", OBJ("BoundedAttributes", inv=False)).param("max_length", OPT(INT)).param("attributes", VAL)
+c.param("self", OBJ("BoundedAttributes", inv=False)).param("max_length", OPT(INT)).param("attributes", OPT(DICT()))
 c.param("immutable", BOOL).param("max_value_len", OPT(INT))
-c.req("attributes-is-a-mapping-or-none", lambda S_: Or(Val.is_VNone(S_.a.attributes), And(
-    Val.is_VRef(S_.a.attributes), S_.old.typeof(S_.a.attributes) == S_.cid("dict"), S_.old.dlen(S_.a.attributes) >= 0)))
-c.init_ghost = lambda S_: S_.I.st.ghost.setdefault("host_data_dicts", []).append(S_.a.attributes)
+c.req("initial-attributes-are-primitive", lambda S_: Or(Val.is_VNone(S_.a.attributes), _prim_dict(S_, S_.a.attributes)))
+c.protects = lambda S_: {"fields": ["max_length", "max_value_len", "_lock", "_dict", "_immutable"], "lists": [], "dicts": []}
 c.result = NONE
 c.host_ops_exc_base = "Exception"
 c.logged = "BoundedAttributes.__init__"
@@ -177,6 +188,7 @@ c.loop("iter:attributes.items()", body_ensures=_init_fill, body_no_raise=True,
 
 c = contract(AT, "BoundedAttributes.merge_in", ["C18"])
 c.param("self", OBJ("BoundedAttributes")).param("attributes", OBJ("BoundedAttributes"))
+c.req("merged-attributes-are-primitive", lambda S_: _prim_dict(S_, S_.old.f(S_.a.attributes, "_dict")))
 c.result = NONE
 c.host_ops_exc_base = "Exception"
 c.logged = "merge_in"
@@ -239,6 +251,14 @@ def _merge_operands(S_, kind):
     res = [("neither-operand-is-modified", "POST", And(*out), None),
            ("incompatible-schemas-return-the-old-resource", "POST", Implies(incompatible, S_.result == S_.a.self), None)]
     if inits:
+        merged = inits[0].args[1]
+        hm = __import__("pyvc.contract", fromlist=["Heap"]).Heap(None, inits[0].pre)
+        ds = h.f(h.f(S_.a.self, "_attributes"), "_dict")
+        do = h.f(h.f(S_.a.other, "_attributes"), "_dict")
+        kk = z3.Const("k!merge", Val)
+        res.append(("later-source-overrides-earlier-key-by-key", "POST", z3.ForAll([kk], And(
+            hm.dhas(merged, kk) == Or(h.dhas(ds, kk), h.dhas(do, kk)),
+            hm.dget(merged, kk) == If(h.dhas(do, kk), h.dget(do, kk), h.dget(ds, kk)))), None))
         url = inits[0].args[2]
         res.append(("schema-url-rule", "POST", And(Not(incompatible), url == If(z3.Length(su) == 0, h.f(S_.a.other, "_schema_url"),
                                                                                If(z3.Length(so) == 0, h.f(S_.a.self, "_schema_url"),
